@@ -34,7 +34,11 @@ def mem_universe():
                        field(13, "default", L(T("string"))), field(14, "default", L(T("enum")))])
     d["Ptrs"] = struct([field(1, "default", L(ST("Leaf", True))), field(2, "default", L(ST("Fix", False))), field(3, "default", M(T("string"), ST("Leaf", True))),
                         field(4, "default", M(T("i32"), L(T("string")))), field(5, "optional", ST("Ptrs", True)), field(6, "default", ST("LeafUnk", False)),
-                        field(7, "default", L(L(T("i16")))), field(8, "default", L(T("binary"))), field(9, "default", M(ST("Fix", True), T("string")))], unk=True)
+                        field(7, "default", L(L(T("i16")))), field(8, "default", L(T("binary"))), field(9, "default", M(ST("Fix", True), T("string"))),
+                        field(10, "default", L(M(T("string"), T("i32")))), field(11, "default", SET(M(T("i32"), T("string")))),
+                        field(12, "default", L(L(T("string")))), field(13, "default", M(T("string"), L(T("binary")))),
+                        field(14, "optional", T("i64", True)), field(15, "optional", T("string", True)), field(16, "optional", T("i16", True)),
+                        field(17, "default", L(SET(T("double")))), field(18, "default", M(T("i64"), M(T("string"), T("string"))))], unk=True)
     return U.with_defaults(d)
 
 
@@ -69,7 +73,11 @@ def sized_value(s, defs, n, salt):
             cnt = 0 if depth <= 0 else min(3, 1 + n % 4)
             return {"nil": False, "ents": [[U.key_n(t["kt"], j + sl, defs), go(t["vt"], depth - 1, sl + j)] for j in range(cnt)]}
         if k == "struct":
-            return {"f": {f["key"]: go(f["t"], depth - 1, sl + i) for i, f in enumerate(defs[t["s"]]["fields"])}, "unk": []}
+            unk = []
+            if defs[t["s"]].get("unk"):
+                # one unknown field (sl even) or several (sl odd)
+                unk = U.unknown_bytes([sl]) if sl % 2 == 0 else U.unknown_bytes([sl, sl + 1, sl + 3])
+            return {"f": {f["key"]: go(f["t"], depth - 1, sl + i) for i, f in enumerate(defs[t["s"]]["fields"])}, "unk": unk}
     return go({"k": "struct", "ptr": False, "s": s}, 3, salt)
 
 
@@ -95,22 +103,33 @@ def run06(prop, tier, seed, work):
     for h in range(nh):
         (ty, m) = allm[h % len(allm)]
         steps = [{"op": "decode", "ty": ty, "in": m, "dest": "fresh"}, {"op": "walk", "objs": [0]}]
-        kept = [0]
-        plan = rng.sample(["overwrite", "more", "gc", "more", "gc"], rng.randrange(2, 6))
+        main = 0            # step index of the decode that last filled the main object
+        kept = []           # other objects still alive (besides main)
+        plan = rng.sample(["overwrite", "more", "gc", "more", "gc", "reuse"], rng.randrange(2, 7))
         for a in plan:
-            if a == "overwrite":
-                steps.append({"op": "overwrite", "obj": 0, "byte": 255})
-                steps.append({"op": "recheck", "obj": 0, "after": "overwrite"})
+            if a == "reuse":
+                # the caller copies the struct (keeps its pointers), then decodes the next message into the same target
+                steps.append({"op": "clone", "obj": main})
+                ck = len(steps) - 1
+                (t2, m2) = rng.choice([x for x in allm if x[0] == ty])
+                steps.append({"op": "decode", "ty": ty, "in": m2, "dest": "into", "obj": main})
+                main = len(steps) - 1
+                steps.append({"op": "recheck", "obj": ck, "after": "reuse"})
+                kept.append(ck)
+            elif a == "overwrite":
+                steps.append({"op": "overwrite", "obj": main, "byte": 255})
+                steps.append({"op": "recheck", "obj": main, "after": "overwrite"})
             elif a == "more":
                 (t2, m2) = rng.choice(allm)
                 steps.append({"op": "decode", "ty": t2, "in": m2, "dest": "fresh"})
                 kept.append(len(steps) - 1)
                 if rng.random() < 0.4:
                     steps.append({"op": "drop", "obj": kept.pop()})
-                steps.append({"op": "recheck", "obj": 0, "after": "decode"})
+                steps.append({"op": "recheck", "obj": main, "after": "decode"})
             else:
                 steps.append({"op": "gc"})
-                steps.append({"op": "recheck", "obj": 0, "after": "gc"})
+                steps.append({"op": "recheck", "obj": main, "after": "gc"})
+        kept = [main] + kept
         steps.append({"op": "walk", "objs": kept})
         for k in kept:
             steps.append({"op": "recheck", "obj": k, "after": "end"})
